@@ -19,6 +19,16 @@ REG = {
             "(thorough) x B x drop_last x drop_last_batch_size x budget kind x budget<=3 epochs; each compared item-by-item "
             "with an independent reference scheduler: main indices, batch flags, set_epoch log, stopping point, termination bound",
             "DESIGN.md §3 C04", TRUST),
+    "C05": ("exploration", "Hypothesis-generated schedules + bounded-exhaustive sweep vs. reference model; real DataLoader with tagging collators",
+            "random search over geometries x 0-4 interleaved configs (all interval-kind subsets, sizes 0-7, own batch sizes, zero "
+            "budgets), complete enumeration for N<=4/5 with all interval triples, and a DataLoader facet checking that every loaded "
+            "batch is unmixed and collated by its own dataset's collator; compared item-by-item with the reference scheduler",
+            "DESIGN.md §3 C05", TRUST),
+    "C06": ("exploration", "metamorphic relation (resumed run == suffix of uninterrupted run) over Hypothesis-generated and exhaustively enumerated checkpoints",
+            "for every epoch-boundary checkpoint strictly before the budget and every checkpoint form the resumed stream (flags, side "
+            "passes, set_epoch announcements, stop) must equal the suffix of the reference run; refusals (NotImplementedError / "
+            "assert) are counted; uninterrupted implementation run validated against the model in the same case",
+            "DESIGN.md §3 C06", TRUST),
 }
 
 NOT_YET = "check not built yet in this session (planned, see DESIGN.md §3)"
